@@ -41,8 +41,8 @@ pub open spec fn page_of(ms: Seq<CommandHistoryRecord>, offset: int, rows: int) 
 def build():
     U = Unit('c16_history', 'C16', 'command-history paging: no overflow for any rows / offset from the path; nothing reserved by the client\'s number; page = matches from offset, at most rows; total = all matches'.replace("\\'", ''))
     prelude.strings(U)
-    for t in ['CommandHistoryRecord']:
-        U.opaque(t, 'Clone', clone_spec=True)
+    for t in ['MyHandle', 'CommandSummary', 'CommandHistoryResult']:
+        U.opaque(t, 'Clone')
     U.outside('''
 impl CommandHistoryRecord { pub fn matches(&self, _c: &CommandHistoryCriteria) -> bool { unimplemented!() } }
 pub struct AggregateStore;
@@ -50,6 +50,7 @@ pub struct AggregateStore;
 pub fn vx_reserve<T>(_n: usize) -> Vec<T> { unimplemented!() }
 ''')
     U.add('#[verifier::external_type_specification] #[verifier::external_body] pub struct ExAggregateStore(AggregateStore);')
+    U.struct(HI, 'CommandHistoryRecord', derive=['Clone'])
     U.struct(HI, 'CommandHistoryCriteria', derive=[])
     U.struct(HI, 'CommandHistory', derive=[])
     U.add(SPEC)
